@@ -105,6 +105,85 @@ func (c *memConn) Send(ctx context.Context, d *actions.SubscriptionMessageDelive
 	return nil
 }
 
+// c11LargeLimits: a backlog larger than the client's limit, limits below, at and
+// above the streamer's per-fetch batch size; nothing is acknowledged.  Exactly
+// min(limit, backlog) messages may be outstanding at quiescence.
+func c11LargeLimits(t *testing.T) (int, []report.Viol) {
+	var viols []report.Viol
+	n := 0
+	synctest.Test(t, func(t *testing.T) {
+		w, err := world.Open()
+		if err != nil {
+			t.Fatal(err)
+		}
+		defer w.Close()
+		w.SeqTick = false
+		ctx := context.Background()
+		w.Pub.CreateTopic(ctx, &pubsubpb.Topic{Name: c11Topic})
+		w.Sub.CreateSubscription(ctx, &pubsubpb.Subscription{Name: c11Sub, Topic: c11Topic})
+		var idStr string
+		if err := w.DB.QueryRow("SELECT id FROM subscriptions").Scan(&idStr); err != nil {
+			t.Fatal(err)
+		}
+		subID := uuid.MustParse(idStr)
+		base, _ := w.Dump()
+		for _, c := range []struct{ limit, backlog int }{{99, 130}, {100, 130}, {101, 130}, {150, 260}, {250, 300}} {
+			if err := w.Restore(base); err != nil {
+				t.Fatal(err)
+			}
+			for done := 0; done < c.backlog; {
+				req := &pubsubpb.PublishRequest{Topic: c11Topic}
+				for i := 0; i < 50 && done < c.backlog; i++ {
+					req.Messages = append(req.Messages, &pubsubpb.PubsubMessage{Data: payloadOf(10)})
+					done++
+				}
+				if _, err := w.Pub.Publish(ctx, req); err != nil {
+					t.Fatal(err)
+				}
+			}
+			var mu sync.Mutex
+			out := map[string]bool{}
+			peak := 0
+			conn := &memConn{reqs: make(chan *actions.MessageStreamRequest)}
+			conn.onSend = func(d *actions.SubscriptionMessageDelivery) {
+				mu.Lock()
+				out[d.ID.String()] = true
+				if len(out) > peak {
+					peak = len(out)
+				}
+				mu.Unlock()
+			}
+			sctx, cancel := context.WithCancel(context.Background())
+			ms := &actions.MessageStreamer{Client: w.Client, SubscriptionID: &subID, SubscriptionName: c11Sub, AutomaticNack: true}
+			done := make(chan error, 1)
+			go func() { done <- ms.Go(sctx, conn) }()
+			conn.reqs <- &actions.MessageStreamRequest{FlowControl: &actions.FlowControl{MaxMessages: c.limit, MaxBytes: 10_000_000}}
+			synctest.Wait()
+			n++
+			mu.Lock()
+			got := len(out)
+			mu.Unlock()
+			want := c.limit
+			if c.backlog < want {
+				want = c.backlog
+			}
+			if got > c.limit {
+				viols = append(viols, report.Viol{Property: "C11", Check: "C11/large-limits", Rule: "flow-control-messages", Text: fmt.Sprintf("max outstanding messages %d, backlog %d, nothing acknowledged: %d messages were sent", c.limit, c.backlog, got), Trace: []string{fmt.Sprint(c.limit), fmt.Sprint(c.backlog)}})
+			} else if got < want {
+				viols = append(viols, report.Viol{Property: "C11", Check: "C11/large-limits", Rule: "stall", Text: fmt.Sprintf("max outstanding messages %d, backlog %d, nothing acknowledged: only %d messages were sent", c.limit, c.backlog, got), Trace: []string{fmt.Sprint(c.limit), fmt.Sprint(c.backlog)}})
+			}
+			cancel()
+			select {
+			case <-done:
+			case <-time.After(time.Hour):
+			}
+			synctest.Wait()
+			actions.WakeAllInternal()
+		}
+	})
+	return n, viols
+}
+
 type c11Cfg struct {
 	MaxMessages, MaxBytes int
 }
@@ -562,6 +641,12 @@ func runC11(t *testing.T, tier string) int {
 		"configurations":                per,
 		"events":                        c11Events,
 		"explanation":                   "for each of 15 flow-control settings: DFS over all event sequences (publish small/big, stream ack, stream nack as modify-deadline 0, stream Nack, external Acknowledge) up to the depth, each replayed on a fresh real MessageStreamer.Go with an in-memory connection and run to quiescence (synctest.Wait) after every event; pruned on repeated quiescent states; the bound is checked at every Send, the no-stall condition at every quiescent point",
+	}
+	// limits around the streamer's internal batch size (100 per fetch)
+	ln, lv := c11LargeLimits(t)
+	cov["large_limit_runs"] = ln
+	for _, v := range lv {
+		sink.add(v)
 	}
 	if c11Layer2 != nil && os.Getenv("VERIF_NO_SCHED") == "" {
 		c2, v2, err := c11Layer2(t, tier, report.RealNow().Add(schedBudget(tier)))
